@@ -357,6 +357,13 @@ fn main() {
                 seed = args[i + 1].parse().expect("seed");
                 i += 1;
             }
+            "--replay" => {
+                let v: serde_json::Value = std::fs::read_to_string(&args[i + 1]).ok().and_then(|s| serde_json::from_str(&s).ok()).expect("replay file");
+                seed = v["seed"].as_u64().expect("seed in replay file");
+                tier = if v["tier"].as_str() == Some("thorough") { Tier::Thorough } else { Tier::Quick };
+                eprintln!("replaying C20 tier={} seed={seed}; recorded signature: {}", tier.name(), v["signature"]);
+                i += 1;
+            }
             _ => {}
         }
         i += 1;
